@@ -368,6 +368,38 @@ func pairRule(c *Ctx, rule string, specs []pairSpec) {
 			}
 			check("insert", fi, ri, sp.fwd, sp.rev)
 			check("insert", ri, fi, sp.rev, sp.fwd)
+			// an insert into the forward map that may overwrite an existing entry must evict the reverse entry of the old value
+			for _, in := range fi {
+				mu := in.(*ssa.MapUpdate)
+				missDominates := false
+				for _, ft := range flow.FactsAtInstr(in) {
+					if name, _, ok := guardName(ft.Cond); ok && name == "found("+sp.typ+"."+sp.fwd+")" && !ft.Pol {
+						missDominates = true
+					}
+				}
+				if missDominates {
+					continue
+				}
+				evicts := false
+				for _, d := range rd {
+					key := d.(*ssa.Call).Call.Args[1]
+					ex, ok := key.(*ssa.Extract)
+					if !ok || ex.Index != 0 {
+						continue
+					}
+					lk, ok := ex.Tuple.(*ssa.Lookup)
+					if !ok || !strings.HasSuffix(flow.FieldOwner(lk.X), sp.typ+"."+sp.fwd) || lk.Index != mu.Key {
+						continue
+					}
+					for _, ft := range flow.FactsAtInstr(d) {
+						if name, _, ok := guardName(ft.Cond); ok && name == "found("+sp.typ+"."+sp.fwd+")" && ft.Pol {
+							evicts = true
+						}
+					}
+				}
+				c.R.Check(rule, load.ShortFunc(f), fmt.Sprintf("overwrite of %s.%s evicts %s[old]", sp.typ, sp.fwd, sp.rev), c.P.Pos(instrPos(in)), evicts,
+					fmt.Sprintf("%s.%s[key] may be overwritten (the insert is not dominated by a lookup miss) but no path deletes %s[old value]: the reverse index keeps claiming the old value for this key", sp.typ, sp.fwd, sp.rev))
+			}
 			// a delete of one direction is matched by a delete of the other, or by the other entry being overwritten
 			check("delete", fd, append(append([]ssa.Instruction{}, rd...), ri...), sp.fwd, sp.rev)
 			check("delete", rd, append(append([]ssa.Instruction{}, fd...), fi...), sp.rev, sp.fwd)
